@@ -370,11 +370,13 @@ def unit_table_cells(ctx):
     alpha = ["|", "\\", "n", " ", "a"]
     n = S.n_for(7, 8)
     reqs = [("table_cells", ["|" + w]) for w in S.words(alpha, n)]
+    # every row string, not only those that begin with '|': whatever precedes the first '|' is ignored
+    reqs += [("table_cells", [w]) for w in S.words(alpha, n - 2)]
     r = rng("cells")
     exotic = ["\t", "\xa0", " ", "　", "😀", "\x0b", "\x1c", "\x85", "é", "\r"]
     for _ in range(S.n_for(3000, 60000)):
         k = r.randint(1, 12)
-        reqs.append(("table_cells", [r.choice(["", " ", "\t "]) + "|" + "".join(r.choice(alpha + exotic) for _ in range(k)) + r.choice(["", "\n", "\r\n", " \n"])]))
+        reqs.append(("table_cells", [r.choice(["", " ", "\t ", "", "x", "a b ", "\\", "n\\\\", "é "]) + "|" + "".join(r.choice(alpha + exotic) for _ in range(k)) + r.choice(["", "\n", "\r\n", " \n"])]))
     c = differential("table_cells", reqs, nontrivial=lambda q, r: q[1][0] if isinstance(r, list) and len(r) >= 1 else None,
                      classify=lambda q, r: "cells:%d" % len(r) if isinstance(r, list) else "foreign")
     c.exhaustive = False
@@ -655,6 +657,10 @@ def o_no_hang(ctx):
             srcs.append("Feature: f\n  @t" + body + " #c\n  Scenario: s\n    Given g\n      | " + body + " |\n      |" + body + "x|\n")
             srcs.append("Feature: f\n  " + body + "x\n  Scenario: s " + body + "\n    Given " + body + "\n      \"\"\"" + body + "\n      " + body + "\n      \"\"\"\n")
             srcs.append("Feature: f\n  Scenario Outline: <" + body + ">\n    Given <" + body + ">\n    Examples:\n      | " + body + " |\n      | v |\n")
+    # substitution is one pass: cells that mention their own or each other's placeholder are data, not a recursion
+    for cells in (("t", "Hello <t>"), ("t", "<t>"), ("t", "<t><t>"), ("a | b", "<b> | <a>"), ("a | b", "x<a>y<b> | <b><a><b>"), ("a", "<<a>>")):
+        srcs.append("Feature: f\n  Scenario Outline: o <%s>\n    Given the <%s> step\n      | <%s> |\n    And doc\n      \"\"\"\n      <%s>\n      \"\"\"\n    Examples:\n      | %s |\n      | %s |\n"
+                    % ((cells[0].split(" | ")[0],) * 4 + cells))
     script = ("import sys, json\nsys.path.insert(0, %r)\nfrom gherkin.stream.gherkin_events import GherkinEvents\n"
               "docs = json.load(sys.stdin)\n"
               "for i, d in enumerate(docs):\n"
